@@ -627,6 +627,10 @@ class Prims:
                                    + {"ValueError": "(integer literal over the digit limit)",
                                       "RecursionError": "(deeply nested document)",
                                       "JSONDecodeError": ""}[e]))
+            elif nm in ("get", "pop", "setdefault") and isinstance(f, ast.Attribute) and n.args \
+                    and not any(is_client(b) for b in self.origins(f.value, fn, sc)) and any(o[0] == "R" for o in self.origins(n.args[0], fn, sc)):
+                # a client value used as the key of an internal table through .get(): hashing it raises TypeError for a list / object
+                out += self._hash_key(n, n.args[0], f.value, fn, sc)
             elif nm == "len" and isinstance(f, ast.Name) and n.args:
                 out += self._needs_type(n, n.args[0], fn, sc, {"list", "str", "dict", "bytes"}, "len()")
             elif nm == "int" and isinstance(f, ast.Name) and n.args:
